@@ -18,7 +18,7 @@ CHECKS = {
          "TLA+ spec Cells: TLC exhaustive over add/remove/move histories and the key-arithmetic grid; TLC-simulated histories replayed on the real cells.Cells; TLC trace validation (CellsTrace) of every get_near_cells call of traced pipeline runs",
          "TLC checks Consistent/QueryComplete/QuerySound over all bounded operation histories (3 atoms on positions straddling cell borders, sizes 2 and 5) and the covering lemma on a coordinate grid; simulated histories and the grid are executed on the real class and each recorded add/remove/query event is validated against the spec's actions; in traced pipeline runs TLC tracks every atom's position/cell from wrapper events and judges each real query against brute force.",
          "Wrappers on Cells methods, Atom.__setattr__ and Residue.add/remove_atom are harness code; coordinates truncated to 0.001 A with a 0.003 A margin; pipeline traces cover the repository's PDB files only; cell-map maintenance defects of the hydrogen-optimisation classes are listed as known findings by call site.",
-         "DESIGN.md 6/C14", ["Cells", "MC_Cells", "CellsTrace"]),
+         "DESIGN.md 6/C14", ["Cells", "MC_Cells", "CellsTrace", "CellsLemma"]),
  "C18": ("model_checking",
          "TLA+ spec Dx2Cube (reader/writer as line-by-line actions): TLC exhaustive over all grid shapes in the bound; every shape converted by the real read_pqr/read_dx/write_cube (and the dx2cube entry point); TLC trace validation (Dx2CubeTrace) of the parsed cubes",
          "The space in the bound (all nx,ny,nz <= MaxN, DX row lengths 1-3, 0-2 atoms, trailer on/off) is enumerated completely by TLC; each case is realised as files, converted by the real code (many conversions per process), parsed by an independent cube reader and judged by TLC against the spec's cube and the C18 clauses.",
@@ -98,7 +98,7 @@ CHECKS = {
          "TLA+ spec Placement (the add_hydrogens loop: tetrahedral paths by the parent's bond count, else three-point superposition on the first three available atoms of get_nearest_bonds; the repair_heavy work queue with deferral): every residue of every traced run is a case whose observed sequence of (atom, construction path, reference atoms, atoms actually handed to the superposition) TLC must reproduce, with the clauses ParentAmongRefs / ReferencePairing / PeptideNeighbourBonded / EveryHydrogenPlaced judged on the observation; every added atom of every final model is judged by PlacementTrace on bond length, bond angles, attachment and coincidence against its patched template",
          "~150 (quick) / ~700 (thorough) traced runs: every residue type at every chain position (heavy atoms only, side-chain atoms removed singly and in groups), hydrogen-bond environments that drive each optimisation class, a backbone gap, nucleic strands, partly protonated input, titration runs and neutral termini, 1AJJ with each side chain cut after CB (rebuilt atoms clash, both debump passes act), repository structures; random side-chain conformations, equivalent-name exchanges, resolved acids; ~900/5000 residue cases and ~8000/55000 added atoms.",
          "Deviations are measured by harness float code (numpy), thresholds judged by TLC; the allowance (0.02 A + 2 x misfit; 6 deg + 2 x atan(2 x misfit / bond)) uses the residual of an independent SVD superposition of the template star on the input and of the recorded construction arguments; peptide neighbours are taken by distance (1.7 A), not from the model's pointers; rotated ...FLIP copies of input atoms are moves (C04), not additions.",
-         "DESIGN.md 6/C05", ["Placement", "PlacementTrace"]),
+         "DESIGN.md 6/C05", ["Placement", "PlacementTrace", "Templates"]),
 }
 
 NOT_YET = "check not built yet (build round in progress); planned per DESIGN.md section 6"
@@ -130,7 +130,10 @@ def main():
             served.setdefault(m, []).append(pid)
     engines = [{"name": "tlc", "path": "/usr/local/bin/tlc", "serves_properties": sorted(CHECKS),
                 "kind_free_text": "TLC 1.8 model checker on the TLA+ modules in /verif/spec (" +
-                                  ", ".join(sorted(served)) + "); conformance harness /verif/vlib replays TLC-generated cases into pdb2pqr and validates recorded traces with TLC"}]
+                                  ", ".join(sorted(served)) + "); conformance harness /verif/vlib replays TLC-generated cases into pdb2pqr and validates recorded traces with TLC"},
+               {"name": "apalache", "path": "/opt/veriftools/apalache/bin/apalache-mc", "serves_properties": ["C14"],
+                "kind_free_text": "Apalache 0.58 discharges the covering lemma of the cell key arithmetic for all integers (spec/CellsLemma.tla, --length=0); "
+                                  "an auxiliary step of the C14 check next to the TLC legs"}]
     m = {
         "version": 1,
         "setup_cmd": "./tools/setup.sh",
